@@ -1,7 +1,7 @@
 (* C37 correspondence: the harness runs the real GroupCommitQueue (plus its copy of the caller
    protocol of execute_small_commit) under the deterministic scheduler and prints, per case, the
    programs, the schedule and everything it observed.  [model_agrees] replays programs and
-   schedule on Model/GroupCommit.v (variant fx = false: the code as it is; site 404 present) and
+   schedule on Model/GroupCommit.v (variant fx = true: the code as it is; site 404 present) and
    demands the same observations; [spec_ok] is the property's own oracle on the observations
    alone.  Definitions only. *)
 From Coq Require Import ZArith List Bool.
@@ -18,9 +18,7 @@ Open Scope Z_scope.
      log entry = batch id + 64 * (thread + 8 * commit number)
      result  = commit number + 8 * (code + 8 * (batch id + 64 * log length at return)) *)
 Inductive case :=
-| Case (fx : bool)                   (* false: the caller protocol as it is in the code; true: harness built with
-                                        --cfg c37_fixed against a tree with fixes/C37-take-pending-only-as-leader.diff *)
-       (progs : list (list Z))       (* per thread: its commits *)
+| Case (progs : list (list Z))       (* per thread: its commits *)
        (steps : list Z)              (* every schedule entry that was executed, with what was observed after it *)
        (log : list Z)                (* the log at the end *)
        (results : list (list Z))     (* per thread, per commit *)
@@ -35,7 +33,7 @@ Definition sched_of (steps : list Z) : list nat := map (fun z => Z.to_nat (z mod
 
 Definition final_and_obs (c : case) : St * list (Z * (list Z * Z * Z)) :=
   match c with
-  | Case fx progs steps _ _ _ _ _ => exec_obs fx true (sched_of steps) (init (to_progs progs))
+  | Case progs steps _ _ _ _ _ => exec_obs true true (sched_of steps) (init (to_progs progs))
   end.
 
 Fixpoint zlist_eq (a b : list Z) : bool :=
@@ -90,7 +88,7 @@ Fixpoint results_eq (s : shared) (t : nat) (rs : list (list Z)) : bool :=
 (* does the model reproduce everything the harness observed? *)
 Definition model_agrees (c : case) : bool :=
   match c with
-  | Case fx progs steps log_ results failed drained probe =>
+  | Case progs steps log_ results failed drained probe =>
       let (sf, obs) := final_and_obs c in
       (Nat.eqb (length results) (length progs)) &&
       (Nat.leb (length progs) 4) &&
@@ -128,14 +126,14 @@ Fixpoint results_ok (log_ : list Z) (failed : list Z) (t : Z) (rs : list (list Z
   end.
 Definition spec_ok (c : case) : bool :=
   match c with
-  | Case _ _ _ log_ results failed drained probe =>
+  | Case _ _ log_ results failed drained probe =>
       nodup_ids log_ [] && results_ok log_ failed 0 results && drained && (probe =? 1)
   end.
 
-(* finding class 1: in the model's run of this case an elected leader did not find its own
-   commit in take_pending (it had been drained by another committer's take_pending) *)
-Definition known_class (c : case) : Z :=
-  if stolen (sh (fst (final_and_obs c))) then 1 else 0.
+(* no recorded finding class is left: F-C37-1 (an elected leader lost its own commit to another
+   committer's take_pending) was repaired by /repo 77fabcc, and Proof/GroupCommitRepair.v proves
+   that the ghost flag [stolen] stays false in every run of the repaired protocol *)
+Definition known_class (c : case) : Z := 0.
 
 Fixpoint failures_from (i : Z) (cs : list case) : list (Z * bool * bool * Z) :=
   match cs with
